@@ -55,8 +55,15 @@ def key_class(model, v, os_, depth=0):
 
 
 def check_key_fns(ctx, model):
-    for name, n in (("pair_key", 2), ("trio_key", 3)):
-        p = "%s::state::%s" % (F, name)
+    fns = [("%s::state::pair_key" % F, 2), ("%s::state::trio_key" % F, 3)]
+    # the pagination cursors are built by closures inside calc_range_start / trio_calc_range_start and must
+    # canonicalise exactly like the keys they are compared with
+    for base, n in (("%s::state::calc_range_start" % F, 2), ("%s::state::trio_calc_range_start" % F, 3)):
+        cl = [x for x in model.fnsrc if x.startswith(base + "::{closure#0}") and x.count("{closure") == 1]
+        if not cl:
+            ctx.missing("C19-R1", "cursor closure of %s" % base)
+        fns += [(c, n) for c in cl]
+    for p, n in fns:
         v = ctx.view(p, "C19-R1")
         if v is None:
             continue
